@@ -288,7 +288,9 @@ def mentions(text, name):
 
 
 def memo_form(fn):
-    """Memoising getter?  Recognised layouts (S = a slot of self):
+    """Memoising getter?  Recognised layouts (S = a slot of self; A an optional leading alias `a = self.S`, which may
+    stand for the slot in the test and in the early return; the value may be stored as `self.S = e`,
+    `v = self.S = e` or `v = e; self.S = v`, and the final return may name the slot or that local):
          if <S absent>: <compute, storing self.S> ; return self.S
          if <S present>: return self.S ; <compute, storing self.S> ; return self.S
          try: return self.S  except AttributeError: pass|<compute> ; <compute, storing self.S> ; return self.S
@@ -296,6 +298,22 @@ def memo_form(fn):
        -> {"slot": S, "compute": [statements], "store_stmts": [...]} or None"""
     body = [s for s in fn.body if not (isinstance(s, ast.Expr) and isinstance(s.value, ast.Constant))]
     if not body:
+        return None
+    alias = slot0 = None
+    f0 = body[0]
+    if isinstance(f0, (ast.Assign, ast.AnnAssign)) and getattr(f0, "value", None) is not None:
+        tg = f0.targets if isinstance(f0, ast.Assign) else [f0.target]
+        if len(tg) == 1 and isinstance(tg[0], ast.Name) and isinstance(f0.value, ast.Attribute) and norm(f0.value.value) == "self":
+            alias, slot0 = tg[0].id, f0.value.attr
+            body = body[1:]
+            if not body:
+                return None
+
+    def slot_of(e):
+        if isinstance(e, ast.Attribute) and norm(e.value) == "self":
+            return e.attr
+        if alias is not None and isinstance(e, ast.Name) and e.id == alias:
+            return slot0
         return None
 
     def slot_test(t):
@@ -305,15 +323,15 @@ def memo_form(fn):
             t, pol = t.operand, not pol
         if isinstance(t, ast.Call) and norm(t.func) == "hasattr" and len(t.args) == 2 and norm(t.args[0]) == "self" and isinstance(t.args[1], ast.Constant):
             return str(t.args[1].value), ("present" if pol else "absent")
-        if isinstance(t, ast.Compare) and len(t.ops) == 1 and isinstance(t.comparators[0], ast.Constant) and t.comparators[0].value is None and isinstance(t.left, ast.Attribute) and norm(t.left.value) == "self":
+        if isinstance(t, ast.Compare) and len(t.ops) == 1 and isinstance(t.comparators[0], ast.Constant) and t.comparators[0].value is None and slot_of(t.left) is not None:
             if isinstance(t.ops[0], ast.Is):
-                return t.left.attr, ("absent" if pol else "present")
+                return slot_of(t.left), ("absent" if pol else "present")
             if isinstance(t.ops[0], ast.IsNot):
-                return t.left.attr, ("present" if pol else "absent")
+                return slot_of(t.left), ("present" if pol else "absent")
         return None
 
-    def returns_slot(st, slot):
-        return isinstance(st, ast.Return) and isinstance(st.value, ast.Attribute) and norm(st.value.value) == "self" and st.value.attr.lstrip("_") == slot.lstrip("_")
+    def same_slot(a, b):
+        return a is not None and b is not None and a.lstrip("_") == b.lstrip("_")
 
     def stores(stmts, slot):
         out = []
@@ -321,36 +339,49 @@ def memo_form(fn):
             for n in ast.walk(st):
                 if isinstance(n, (ast.Assign, ast.AnnAssign)):
                     for t in (n.targets if isinstance(n, ast.Assign) else [n.target]):
-                        if isinstance(t, ast.Attribute) and norm(t.value) == "self" and t.attr.lstrip("_") == slot.lstrip("_"):
+                        if isinstance(t, ast.Attribute) and norm(t.value) == "self" and same_slot(t.attr, slot):
                             out.append(n)
         return out
 
+    def stored_locals(stmts, slot):
+        """locals that hold the value stored into the slot"""
+        out = set()
+        for n in stores(stmts, slot):
+            if isinstance(n, ast.Assign):
+                out |= {t.id for t in n.targets if isinstance(t, ast.Name)}
+            v = getattr(n, "value", None)
+            if isinstance(v, ast.Name):
+                out.add(v.id)
+        return out
+
+    def returns_slot(st, slot, early=False, locals_=()):
+        if not isinstance(st, ast.Return) or st.value is None:
+            return False
+        v = st.value
+        if isinstance(v, ast.Attribute) and norm(v.value) == "self" and same_slot(v.attr, slot):
+            return True
+        if isinstance(v, ast.Name):
+            if early:
+                return alias is not None and v.id == alias and same_slot(slot0, slot)
+            return v.id in locals_
+        return False
+
     first = body[0]
-    if isinstance(first, ast.Try) and len(first.body) == 1 and isinstance(first.body[0], ast.Return) and isinstance(first.body[0].value, ast.Attribute) and norm(first.body[0].value.value) == "self" and len(first.handlers) == 1 and not first.orelse and not first.finalbody:
+    if isinstance(first, ast.Try) and len(first.body) == 1 and isinstance(first.body[0], ast.Return) and slot_of(first.body[0].value) is not None and isinstance(first.body[0].value, ast.Attribute) and len(first.handlers) == 1 and not first.orelse and not first.finalbody:
         h = first.handlers[0]
         if h.type is not None and norm(h.type) in ("AttributeError", "(AttributeError,)"):
             slot = first.body[0].value.attr
             rest = [x for x in h.body if not isinstance(x, ast.Pass)] + body[1:]
-            if rest and stores(rest, slot):
-                last = rest[-1]
-                ok_last = returns_slot(last, slot)
-                if not ok_last and isinstance(last, ast.Return) and isinstance(last.value, ast.Name):
-                    ok_last = any(isinstance(s_.value, ast.Name) and s_.value.id == last.value.id for s_ in stores(rest, slot) if hasattr(s_, "value"))
-                if ok_last:
-                    return {"slot": slot, "compute": list(rest[:-1]), "store_stmts": stores(rest, slot)}
+            if rest and stores(rest, slot) and returns_slot(rest[-1], slot, locals_=stored_locals(rest, slot)):
+                return {"slot": slot, "compute": list(rest[:-1]), "store_stmts": stores(rest, slot)}
     if isinstance(first, ast.If) and not first.orelse:
         st = slot_test(first.test)
         if st is not None:
             slot, kind = st
-            if kind == "absent" and len(body) == 2 and returns_slot(body[1], slot) and stores(first.body, slot):
+            if kind == "absent" and len(body) == 2 and stores(first.body, slot) and returns_slot(body[1], slot, locals_=stored_locals(first.body, slot) | ({alias} if alias is not None and alias in stored_locals(first.body, slot) else set())):
                 return {"slot": slot, "compute": list(first.body), "store_stmts": stores(first.body, slot)}
-            if kind == "present" and len(first.body) == 1 and returns_slot(first.body[0], slot) and len(body) >= 3 and stores(body[1:], slot):
-                last = body[-1]
-                ok_last = returns_slot(last, slot)
-                if not ok_last and isinstance(last, ast.Return) and isinstance(last.value, ast.Name):
-                    # returns the local that was just stored into the slot
-                    ok_last = any(isinstance(s_.value, ast.Name) and s_.value.id == last.value.id for s_ in stores(body[1:], slot) if hasattr(s_, "value"))
-                if ok_last:
+            if kind == "present" and len(first.body) == 1 and returns_slot(first.body[0], slot, early=True) and len(body) >= 3 and stores(body[1:], slot):
+                if returns_slot(body[-1], slot, locals_=stored_locals(body[1:], slot)):
                     return {"slot": slot, "compute": list(body[1:-1]), "store_stmts": stores(body[1:], slot)}
     return None
 
